@@ -115,7 +115,8 @@ def tbl_exclusions(t: ch.Tables, impl: str) -> list[tuple[str, str]]:
 def walk_exclusions(t: ch.Tables, mapper: str, extra=()) -> list[tuple[str, str]]:
     ex = set(ch.exclusions_for(t, mapper)) | set(extra)
     if mapper in t.skips:
-        ex |= {("*", "function"), ("*", "ret")}
+        # the FunctionDefinition object itself may be touched (see c13.check_traversals); never its body
+        ex |= {("*", "ret")}
     return sorted(ex)
 
 
